@@ -4,6 +4,7 @@ go 1.19
 
 require (
 	github.com/corestario/kyber v1.6.0
+	github.com/labstack/echo/v4 v4.9.0
 	github.com/lidofinance/dc4bc v0.0.0
 	github.com/prysmaticlabs/prysm/v3 v3.2.1
 	github.com/syndtr/goleveldb v1.0.1-0.20220721030215-126854af5e6d
@@ -14,6 +15,8 @@ require (
 
 require (
 	github.com/aead/chacha20 v0.0.0-20180709150244-8b13a72661da // indirect
+	github.com/censync/go-dto v1.0.6 // indirect
+	github.com/censync/go-validator v1.0.0 // indirect
 	github.com/ethereum/go-ethereum v1.10.25 // indirect
 	github.com/ferranbt/fastssz v0.1.1 // indirect
 	github.com/golang/snappy v0.0.4 // indirect
@@ -25,6 +28,9 @@ require (
 	github.com/kilic/bls12-381 v0.0.0-20200820230200-6b2c19996391 // indirect
 	github.com/klauspost/compress v1.15.12 // indirect
 	github.com/klauspost/cpuid/v2 v2.2.1 // indirect
+	github.com/labstack/gommon v0.3.1 // indirect
+	github.com/mattn/go-colorable v0.1.11 // indirect
+	github.com/mattn/go-isatty v0.0.16 // indirect
 	github.com/minio/sha256-simd v1.0.0 // indirect
 	github.com/mitchellh/mapstructure v1.4.2 // indirect
 	github.com/mohae/deepcopy v0.0.0-20170929034955-c48cc78d4826 // indirect
@@ -36,8 +42,12 @@ require (
 	github.com/sirupsen/logrus v1.8.1 // indirect
 	github.com/supranational/blst v0.3.10 // indirect
 	github.com/thomaso-mirodin/intmath v0.0.0-20160323211736-5dc6d854e46e // indirect
+	github.com/valyala/bytebufferpool v1.0.0 // indirect
+	github.com/valyala/fasttemplate v1.2.1 // indirect
 	go.dedis.ch/fixbuf v1.0.3 // indirect
+	golang.org/x/net v0.3.0 // indirect
 	golang.org/x/sys v0.3.0 // indirect
+	golang.org/x/text v0.5.0 // indirect
 	gopkg.in/yaml.v2 v2.4.0 // indirect
 	lukechampine.com/frand v1.4.2 // indirect
 )
